@@ -56,8 +56,20 @@ func PipelineFromFile(file string, opts ...PipelineOption) (*Pipeline, error) {
 		"__config_dir":  filepath.Dir(file),
 		"__current_dir": currentDir,
 	}
+	builtinParameters := pipeline.Parameters
 	if err := cogyaml.DecodeStrict(fileHandle, pipeline); err != nil {
 		return nil, err
+	}
+
+	// an empty `parameters:` block decodes as a nil map, and a block that is
+	// given replaces the map: the built-in parameters are set again
+	if pipeline.Parameters == nil {
+		pipeline.Parameters = make(map[string]string, len(builtinParameters))
+	}
+	for key, value := range builtinParameters {
+		if _, overridden := pipeline.Parameters[key]; !overridden {
+			pipeline.Parameters[key] = value
+		}
 	}
 
 	// `inputs: [~]`, `languages: [~]`: yaml decodes null list entries as nil pointers
